@@ -478,7 +478,13 @@ func typeOfJSONValue(v any) ExprType {
 		return &ArrayType{Elem: elem}
 	case map[string]any:
 		props := make(map[string]ExprType, len(v))
-		for k, v := range v {
+		keys := make([]string, 0, len(v))
+		for k := range v {
+			keys = append(keys, k)
+		}
+		sort.Strings(keys) // Merging types is not associative. Merge them in fixed order
+		for _, k := range keys {
+			v := v[k]
 			// Property names are case insensitive and looked up in lower case
 			k = strings.ToLower(k)
 			t := typeOfJSONValue(v)
